@@ -117,6 +117,12 @@ class CompiledLogicNet(torch.nn.Module):
                 self.linear_in_dims.append(layer.in_dim)
                 self.layer_order.append(('linear', len(self.linear_layers) - 1))
             elif isinstance(layer, torch.nn.Flatten):
+                if (layer.start_dim, layer.end_dim) != (1, -1):
+                    # the generated code flattens everything but the batch axis
+                    raise ValueError(
+                        f"Cannot compile Flatten(start_dim={layer.start_dim}, end_dim={layer.end_dim}): "
+                        "only the default Flatten() (all axes but the batch axis) is supported."
+                    )
                 self.layer_order.append(('flatten', 0))
                 if verbose:
                     print(f"Found Flatten layer")
